@@ -277,12 +277,15 @@ def finish(check, tier, seed, results, harness_errors, skipped, t0, verbose=True
                 new.append((r, v))
     exit_code = 0
     reported = []
+    only = os.environ.get("VERIF_REPORT_KINDS")
+    if only:
+        new = [(r, v) for r, v in new if v["kind"] in only.split(",") or vsig(v) in only.split(",")]
     if new:
         # one report per distinct signature, smallest case first
         by_sig = collections.OrderedDict()
         for r, v in new:
             by_sig.setdefault(vsig(v), (r, v))
-        for s, (r, v) in list(by_sig.items())[:getattr(check, "max_reports", 3)]:
+        for s, (r, v) in list(by_sig.items())[:int(os.environ.get("VERIF_MAX_REPORTS", 0)) or getattr(check, "max_reports", 3)]:
             case = r["case"]
             small, rr = shrink(check, case, s, max_s=getattr(check, "shrink_s", 90.0))
             if small is None:
